@@ -10,28 +10,28 @@ dir=$(readlink -f "$1")
 patch="$dir/patch.diff"
 demo=$(ls "$dir"/demo*.rs 2>/dev/null | head -1)
 crate=${2:-$(grep -m1 '^diff --git a/crates/' "$patch" | sed 's|^diff --git a/crates/\([^/]*\)/.*|\1|')}
-export CARGO_NET_OFFLINE=true CARGO_TARGET_DIR=/tmp/vmut-target
+export CARGO_NET_OFFLINE=true CARGO_TARGET_DIR=${VMUT_TARGET:-/tmp/vmut-target}
 wt=$(mktemp -d /tmp/vver-XXXXXX); rmdir "$wt"
 git -C /repo worktree add -q --detach "$wt" HEAD || exit 2
-cleanup() { git -C /repo worktree remove --force "$wt" 2>/dev/null; rm -rf "$wt"; git -C /repo worktree prune; }
+cleanup() { git -C /repo worktree remove --force "$wt" 2>/dev/null; rm -rf "$wt" "$wt".demo0.log "$wt".demo1.log "$wt".suite.log; git -C /repo worktree prune; }
 trap cleanup EXIT
 ok=1
 pkg=$(grep -m1 '^name' "$wt/crates/$crate/Cargo.toml" | sed 's/.*"\(.*\)".*/\1/')
 [ "$pkg" = "anstream" ] && pkg="anstream@0.6.18"
 if [ -n "$demo" ]; then
   mkdir -p "$wt/crates/$crate/tests"; cp "$demo" "$wt/crates/$crate/tests/vdemo.rs"
-  if (cd "$wt" && cargo test --offline -q --manifest-path "$wt/crates/$crate/Cargo.toml" ${DEMO_CARGO_ARGS:-} --test vdemo >/tmp/vver-demo0.log 2>&1); then echo "demo passes on unchanged tree: yes"; else echo "demo passes on unchanged tree: NO ($(tail -3 /tmp/vver-demo0.log | tr '\n' ' ' | cut -c1-200))"; ok=0; fi
+  if (cd "$wt" && cargo test --offline -q --manifest-path "$wt/crates/$crate/Cargo.toml" ${DEMO_CARGO_ARGS:-} --test vdemo >$wt.demo0.log 2>&1); then echo "demo passes on unchanged tree: yes"; else echo "demo passes on unchanged tree: NO ($(tail -3 $wt.demo0.log | tr '\n' ' ' | cut -c1-200))"; ok=0; fi
 else
   echo "no demo*.rs found"; ok=0
 fi
 if ! git -C "$wt" apply "$patch"; then echo "patch applies: NO"; echo "NOT-VERIFIED $dir"; exit 1; fi
 echo "patch applies: yes ($(git -C "$wt" diff --stat | tail -1 | sed 's/^ *//'))"
 if [ -n "$demo" ]; then
-  if (cd "$wt" && cargo test --offline -q --manifest-path "$wt/crates/$crate/Cargo.toml" ${DEMO_CARGO_ARGS:-} --test vdemo >/tmp/vver-demo1.log 2>&1); then echo "demo fails with the change: NO (it passes)"; ok=0; else
-    if grep -q "could not compile\|^error\[E" /tmp/vver-demo1.log; then echo "demo fails with the change: COMPILE ERROR"; ok=0; else echo "demo fails with the change: yes"; fi; fi
+  if (cd "$wt" && cargo test --offline -q --manifest-path "$wt/crates/$crate/Cargo.toml" ${DEMO_CARGO_ARGS:-} --test vdemo >$wt.demo1.log 2>&1); then echo "demo fails with the change: NO (it passes)"; ok=0; else
+    if grep -q "could not compile\|^error\[E" $wt.demo1.log; then echo "demo fails with the change: COMPILE ERROR"; ok=0; else echo "demo fails with the change: yes"; fi; fi
   rm -f "$wt/crates/$crate/tests/vdemo.rs"
 fi
-(cd "$wt" && cargo test --workspace --no-fail-fast --offline >/tmp/vver-suite.log 2>&1)
-passed=$(grep -E "^test result" /tmp/vver-suite.log | awk '{p+=$4; f+=$6} END {print p" passed "f" failed"}')
-if grep -qE "^test result: FAILED|could not compile|^error" /tmp/vver-suite.log; then echo "existing suite with the change: FAILS ($passed)"; ok=0; else echo "existing suite with the change: passes ($passed)"; fi
+(cd "$wt" && cargo test --workspace --no-fail-fast --offline >$wt.suite.log 2>&1)
+passed=$(grep -E "^test result" $wt.suite.log | awk '{p+=$4; f+=$6} END {print p" passed "f" failed"}')
+if grep -qE "^test result: FAILED|could not compile|^error" $wt.suite.log; then echo "existing suite with the change: FAILS ($passed)"; ok=0; else echo "existing suite with the change: passes ($passed)"; fi
 if [ $ok = 1 ]; then echo "VERIFIED $dir"; else echo "NOT-VERIFIED $dir"; exit 1; fi
